@@ -21,6 +21,33 @@ CLAIMS = {
         note="hand-written model tied by correspondence; no-mutation and operand-kind clauses are tested on the "
              "implementation, not proved",
         technique="Coq proof (induction over DSL trees) + model/implementation correspondence"),
+    "C05": dict(
+        text="Coq theorems: for every expression dictionary with unique keys, every symmetric G and every F the dense "
+             "(cvxpy) data and the sparse lower-triangular triples (MOSEK storage reading) denote exactly the expression's "
+             "affine function of (G,F), and agree with each other; for every declared model the GENERATED solve plan "
+             "(translated from PEP._solve_with_wrapper on every run) sends metric rows ++ problem constraints ++ problem LMIs "
+             "++ per leaf function class constraints/LMIs ++ per function own constraints/LMIs ++ partition constraints, "
+             "each with its declared multiplicity and sense and nothing else; max of tau under tau<=m_k is the min of "
+             "metrics. Ties: translator (collection order) + exact correspondence on the two translation functions, on "
+             "recorded send sequences of random programs and on the rows of the real cvxpy problem.",
+        ref="DESIGN.md 5.5",
+        note="MOSEK's symmetric-storage reading of triples is an assumption (shared with C11); cvxpy's own "
+             "canonicalisation is trusted",
+        technique="Coq proof (induction over dictionaries / declared models, over a plan regenerated from the source) + "
+                  "model/implementation correspondence"),
+    "C11": dict(
+        text="Coq theorems over an executable model of the 21 MOSEK Task calls PEPit issues: under an explicit decidable "
+             "guard the task denotes exactly the declared SDP (rows, bounds, LMI coupling weights, objective), the "
+             "heuristic modifications commute, and the triple (y, -barsj(k), -barsj(0)) read back satisfies the same "
+             "certificate identity as the cvxpy path; each guard conjunct that excludes a real defect has a _refuted "
+             "theorem with a witness replayed on the real wrapper. Tie: exact comparison of the real MosekWrapper's call "
+             "log (running on a recording stand-in mosek module) with the model, end-to-end cvxpy-vs-mosek(stand-in) solves.",
+        ref="DESIGN.md 5.11",
+        note="MOSEK is not installed: its Optimizer-API semantics and dual sign convention are assumptions encoded in "
+             "Model/Mosek.v and harness/standin/mosek (derived from MOSEK's documented primal/dual pair and the signs "
+             "pinned by tests/test_wrappers.py); four known findings F-C11a-d (KNOWN-FINDING lines)",
+        technique="Coq proof (induction over sent lists; refutation witnesses by vm_compute) + call-log correspondence "
+                  "through a stand-in MOSEK module"),
     "C15": dict(
         text="Coq theorems for every number of blocks, every point dictionary, every history of get_block calls, every "
              "inner-product space and valuation: blocks sum back, second call is idempotent, one block is the identity, the "
